@@ -27,6 +27,21 @@ func VerifC02Queue() {
 	if vp.Tier() == 1 {
 		depth, ncons = 6, 3
 	}
+	verifQueueBMC(depth, ncons, nil)
+}
+
+// K2 from reachable non-empty states: connection 0 has a push in flight (optionally with one request parked
+// behind it), then the same exhaustive exploration. This reaches the merge-while-in-flight logic at small depth.
+func VerifC02QueueInFlight() {
+	depth, ncons := 4, 2
+	if vp.Tier() == 1 {
+		depth = 5
+	}
+	prelude := [][]int{{0, 6}, {0, 6, 1}, {1, 6, 2}}[vp.Choice("prelude", 3)]
+	verifQueueBMC(depth, ncons, prelude)
+}
+
+func verifQueueBMC(depth, ncons int, prelude []int) {
 	q := NewPushQueue()
 	cons := []*Connection{{}, {}, {}}[:ncons]
 	pushes := []*model.PushContext{{PushVersion: "p0"}, {PushVersion: "p1"}, {PushVersion: "p2"}}
@@ -62,8 +77,13 @@ func VerifC02Queue() {
 		}
 		return false
 	}
-	for step := 0; step < depth; step++ {
-		op := vp.Choice(vp.Name("op", step), ncons*len(menu)+1+ncons)
+	for step := 0; step < depth+len(prelude); step++ {
+		var op int
+		if step < len(prelude) {
+			op = prelude[step] // with 2 connections and 3 requests: 0..5 Enqueue(c,r), 6 Dequeue, 7.. MarkDone(c)
+		} else {
+			op = vp.Choice(vp.Name("op", step-len(prelude)), ncons*len(menu)+1+ncons)
+		}
 		switch {
 		case op < ncons*len(menu): // Enqueue(c, r)
 			ci, ri := op/len(menu), op%len(menu)
